@@ -96,6 +96,13 @@ class Gen:
             return self.r.choice(vs)
         return lit_int(self.r.choice(INT_POOL))
 
+    def bin(self, lt, rt, op, scopes, d, pure):
+        """(l op r). When l reads a list element or an object field, r is generated without calls and effects: an
+        assignment to that cell while r is evaluated changes the operand already on the VM's stack (open finding V38)."""
+        left = self.expr(lt, scopes, d, pure)
+        right = self.expr(rt, scopes, d, pure or "[" in left or "." in left)
+        return f"({left} {op} {right})"
+
     def expr(self, ty, scopes, depth, pure=False):
         """Expression of type ty. pure=True: no calls to user functions, no faults, no effects."""
         r = self.r
@@ -109,22 +116,20 @@ class Gen:
             if c < 0.50:
                 op = r.choice(["+", "-", "*", "+", "-", "|", "&", "^"])
                 self.features.add("int" + op)
-                return f"({self.expr(T_INT, scopes, d, pure)} {op} {self.expr(T_INT, scopes, d, pure)})"
+                return self.bin(T_INT, T_INT, op, scopes, d, pure)
             if c < 0.58:
                 op = r.choice(["/", "%"])
                 self.features.add("int" + op)
                 if not pure and r.random() < self.fault_rate:
-                    rhs = self.expr(T_INT, scopes, d, pure)      # may be zero: fatal ValueError
-                else:
-                    rhs = lit_int(r.choice([1, 2, 3, 7, -1, -2, 10]))
+                    return self.bin(T_INT, T_INT, op, scopes, d, pure)      # may be zero: fatal ValueError
+                rhs = lit_int(r.choice([1, 2, 3, 7, -1, -2, 10]))
                 return f"({self.expr(T_INT, scopes, d, pure)} {op} {rhs})"
             if c < 0.64:
                 op = r.choice(["<<", ">>"])
                 self.features.add("int" + op)
                 if not pure and r.random() < self.fault_rate:
-                    cnt = self.expr(T_INT, scopes, d, pure)
-                else:
-                    cnt = str(r.choice([0, 1, 2, 5, 31, 63, 64, 65, 100]))
+                    return self.bin(T_INT, T_INT, op, scopes, d, pure)
+                cnt = str(r.choice([0, 1, 2, 5, 31, 63, 64, 65, 100]))
                 return f"({self.expr(T_INT, scopes, d, pure)} {op} {cnt})"
             if c < 0.67:
                 self.features.add("int**")
@@ -180,19 +185,19 @@ class Gen:
             if c < 0.5:
                 op = r.choice(["<", "<=", ">", ">=", "==", "!="])
                 self.features.add("cmp" + op)
-                return f"({self.expr(T_INT, scopes, d, pure)} {op} {self.expr(T_INT, scopes, d, pure)})"
+                return self.bin(T_INT, T_INT, op, scopes, d, pure)
             if c < 0.6:
                 op = r.choice(["==", "!="])
                 self.features.add("streq")
-                return f"({self.expr(T_STR, scopes, d, pure)} {op} {self.expr(T_STR, scopes, d, pure)})"
+                return self.bin(T_STR, T_STR, op, scopes, d, pure)
             if c < 0.78:
                 op = r.choice(["&&", "||"])
                 self.features.add("logic" + op)
-                return f"({self.expr(T_BOOL, scopes, d, pure)} {op} {self.expr(T_BOOL, scopes, d, pure)})"
+                return self.bin(T_BOOL, T_BOOL, op, scopes, d, pure)
             if c < 0.84:
                 op = r.choice(["|", "&", "^", "==", "!="])
                 self.features.add("boolbit" + op)
-                return f"({self.expr(T_BOOL, scopes, d, pure)} {op} {self.expr(T_BOOL, scopes, d, pure)})"
+                return self.bin(T_BOOL, T_BOOL, op, scopes, d, pure)
             if c < 0.92:
                 self.features.add("not")
                 return f"(!{self.expr(T_BOOL, scopes, d, pure)})"
@@ -201,14 +206,14 @@ class Gen:
                 return f"{self.expr(T_LINT, scopes, 0, pure)}.contains({self.pure_atom_int(scopes)})"
             if self.allow_float:
                 self.features.add("floatcmp")
-                return f"({self.expr(T_FLOAT, scopes, d, pure)} {r.choice(['<', '>', '<=', '>='])} {self.expr(T_FLOAT, scopes, d, pure)})"
+                return self.bin(T_FLOAT, T_FLOAT, r.choice(['<', '>', '<=', '>=']), scopes, d, pure)
             return self.atom(ty, scopes)
         if ty == T_STR:
             if c < 0.3:
                 return self.atom(ty, scopes)
             if c < 0.6:
                 self.features.add("concat")
-                return f"({self.expr(T_STR, scopes, d, pure)} + {self.expr(T_STR, scopes, d, pure)})"
+                return self.bin(T_STR, T_STR, "+", scopes, d, pure)
             if c < 0.8:
                 self.features.add("int.to_string")
                 return f"({self.expr(T_INT, scopes, d, pure)}).to_string()"
